@@ -97,7 +97,8 @@ def parseOp (s : State) (ord : List Nat) (ws : List String) : Option Op :=
   | ["sa", g, k, f, m] => do
       let g ← idx? g nSig
       let (k, si) ← parseKind k
-      pure (.setDisp g { kind := k, siginfo := si, flags := (← idx? f 4), mask := (← idx? m 16) })
+      -- round 5: flags = bit set over RESTART, NODEFER, RESETHAND, ONSTACK, NOCLDSTOP, NOCLDWAIT; mask = the 64-bit sa_mask, decimal
+      pure (.setDisp g { kind := k, siginfo := si, flags := (← idx? f 64), mask := (← idx? m (2 ^ 64)) })
   | ["raise", g] => do pure (.raise (← idx? g nSig))
   | ["raisew", g, wf] => do
       let g ← idx? g nSig
@@ -112,12 +113,12 @@ def parseOp (s : State) (ord : List Nat) (ws : List String) : Option Op :=
           if c ≥ 1 then some (some c) else none
       if cs.length ≤ 64 then pure (.passC l ord cs) else none
   | ["cap", b] => if b == "s" then some (.setCap true) else if b == "d" then some (.setCap false) else none
-  | ["init1", e, sg, m] | ["initl", e, sg, m] => do
+  | ["init1", e, sg, m] | ["initl", e, sg, m] | ["initd", e, sg, m] => do
       -- the int / initializer_list overloads INSERT into the event's set (after the disable): the resulting set in
       -- `std::set` order
       let e ← idx? e s.nEv
       let sg ← parseSigs sg
-      if ws.head? == some "init1" && sg.length != 1 then none
+      if (ws.head? == some "init1" || ws.head? == some "initd") && sg.length != 1 then none
       if sg.length > 3 then none
       let all := (s.evs e).sigs ++ sg.filter (fun g => !(s.evs e).sigs.contains g)
       let sorted := (List.range nSig).map (fun r => all.filter (fun g => rankOf g == r)) |>.flatten
@@ -186,7 +187,21 @@ def showWr (s : State) (g : Nat) (wf : List Nat) : String :=
     "l" ++ toString l ++ ":" ++
       (match inj.idxOf? l with
        | some k => errs.getD ((k + g) % 4) "ERR"
-       | none => if (s.pipe l).length < capOf s then "ok" else "EAGAIN"))
+       | none => if hd s l + (s.pipe l).length < capOf s then "ok" else "EAGAIN"))
+
+/-- the signal number of an id (as in the harness) -/
+def signoOf : Nat → Nat
+  | 0 => 9 | 1 => 10 | 2 => 12 | 3 => 19 | 4 => 35 | 5 => 36 | 6 => 64 | _ => 0
+
+/-- what the invoked user handler sees: the blocked signals (64-bit set, decimal) and whether it runs on the alternate stack -/
+def showEnv (s : State) (g : Nat) : String :=
+  let called := match (s.os g).kind with
+    | .handler _ => true
+    | .tbox => (match (ctxOf s g).old.kind with | .handler _ => true | _ => false)
+    | _ => false
+  if !called then "-" else
+  let (self, m, st) := handlerEnv s g
+  toString (m ||| (if self then 2 ^ (signoOf g - 1) else 0)) ++ ":" ++ (if st then "1" else "0")
 
 /-- the same state with the pipes of the loops the driver uses evaluated once (the model keeps them as a function that
 grows by one closure per step; without this a burst of n deliveries costs n^3) -/
@@ -194,7 +209,11 @@ def normPipe (s : State) : State :=
   let p0 := s.pipe 0
   let p1 := s.pipe 1
   let p2 := s.pipe 2
-  { s with pipe := fun l => if l = 0 then p0 else if l = 1 then p1 else if l = 2 then p2 else [] }
+  let h0 := hd s 0
+  let h1 := hd s 1
+  let h2 := hd s 2
+  { s with pipe := fun l => if l = 0 then p0 else if l = 1 then p1 else if l = 2 then p2 else [],
+           head := fun l => if l = 0 then h0 else if l = 1 then h1 else if l = 2 then h2 else 0 }
 
 def raisesN (s : State) (g : Nat) : Nat → State
   | 0 => s
@@ -223,15 +242,26 @@ def tagsOf (s s' : State) (op : Op) : List String :=
         (if v.sigs.any fun g => !(subsOf s v.loop g).isEmpty then ["join-loop"] else []))
   | .disable e | .destroy e =>
       let v := s.evs e
+      (if (List.range nSig).any fun g => (s.os g).kind = .tbox && (s'.os g).kind != .tbox && ((s'.os g).flags ≥ 4 || (s'.os g).mask ≥ 2 ^ 32)
+       then ["restore-wide"] else []) ++
       dc ++ (if !v.alive then ["dis-dead"] else if !v.enabled then ["dis-idle"] else ["dis"] ++
         (if v.sigs.any fun g => (fdsOf s g).length ≥ 2 && (subsOf s v.loop g).length == 1 then ["leave-ctx"] else []) ++
         (if v.sigs.any fun g => (subsOf s v.loop g).length ≥ 2 then ["leave-loop"] else []))
   | .raise g =>
       match (s.os g).kind with
-      | .dfl => ["raise-dfl"] | .ign => ["raise-ign"] | .handler _ => ["raise-user"]
+      | .dfl => ["raise-dfl"] | .ign => ["raise-ign"]
+      | .handler _ => ["raise-user"] ++ (if (s.os g).resetHand then ["raise-resethand-direct"] else []) ++
+                      (if (s.os g).mask ≥ 2 ^ 31 then ["env-wide-mask"] else []) ++ (if (s.os g).onStack then ["env-onstack"] else [])
       | .tbox => [match (ctxOf s g).old.kind with | .handler _ => "raise-chain" | _ => "raise-nochain",
                   "fan" ++ toString (fdsOf s g).length] ++
-                 (if (fdsOf s g).any fun l => (s.pipe l).length ≥ capOf s then ["raise-overflow"] else [])
+                 (match (ctxOf s g).old.kind with
+                  | .handler _ => (if (ctxOf s g).old.resetHand then ["raise-chain-resethand"] else []) ++
+                                  (if (ctxOf s g).old.noDefer || (ctxOf s g).old.onStack || (ctxOf s g).old.mask != 0 then ["chain-env-differs"] else [])
+                  | _ => []) ++
+                 (if (fdsOf s g).any fun l => hd s l + (s.pipe l).length ≥ capOf s then ["raise-overflow"] else []) ++
+                 (if (fdsOf s g).any fun l => hd s l > 0 then ["head-page"] else []) ++
+                 (if (fdsOf s g).any fun l => hd s l > 0 && hd s l + (s.pipe l).length ≥ capOf s && (s.pipe l).length < capOf s
+                  then ["head-page-drop"] else [])
   | .pass l _ =>
       let n := s'.cbs.length - s.cbs.length
       let live := ((s.pipe l).foldl (fun acc g => acc + (subsOf s l g).length) 0)
@@ -258,7 +288,9 @@ def tagsOf (s s' : State) (op : Op) : List String :=
         (if s'.hasPipe l && !(s'.pipe l).isEmpty then ["passc-left-pending"] else []) ++
         (if n = 0 then ["pass-stale"] else if n = 1 then ["pass-cb1"] else ["pass-cbN"]))
   | .setCap _ => ["cap"]
-  | .setDisp g _ => if (s.os g).kind = .tbox then ["sa-refused"] else if !sigValid g then ["sa-einval"] else ["sa"]
+  | .setDisp g d => if (s.os g).kind = .tbox then ["sa-refused"] else if !sigValid g then ["sa-einval"] else
+      ["sa"] ++ (if d.flags ≥ 4 then ["sa-flags-wide"] else []) ++ (if d.mask ≥ 2 ^ 32 then ["sa-mask-wide"] else []) ++
+      (if normMask d.mask != d.mask then ["sa-mask-killstop"] else [])
   | .init e _ _ => dc ++ (if (s.evs e).enabled then ["reinit-enabled"] else if (s.evs e).inited then ["reinit"] else ["init"])
   | .newEv _ sc => if sc.isEmpty then [] else ["new-script"]
 
@@ -268,6 +300,13 @@ def stepLine (s : State) (line : String) (ord : List Nat) : State × List String
   match ws with
   | [] => (s, [])
   | ["eng", e] => if e == "e" || e == "s" then (s, ["P eng"]) else (s, ["bad-op"])
+  | ["lost", l] =>
+    -- round 5 (observation, outside the statement): the loop is destroyed while its events are subscribed.  ~CommonLoop does
+    -- not touch the signal bookkeeping: no system call, every disposition and isEnabled() as before.  Terminal: the harness
+    -- accepts only deliveries afterwards (the orphaned events must not be touched: their loop pointer dangles).
+    match idx? l nLoop with
+    | some l => (s, ["B lost" ++ (if s.hasPipe l then " lost-subscribed" else ""), "P lost " ++ showState s, "M sys=-"])
+    | none => (s, ["bad-op"])
   | ["burst", g, n] =>
     -- n deliveries in a row (n `raise` ops); the writes of the first and of the last one are shown
     match idx? g nSig, idx? n 40001 with
@@ -310,8 +349,8 @@ def stepLine (s : State) (line : String) (ord : List Nat) : State × List String
         | .init e _ _ => ["M sys=" ++ showSys (sysDisable s e)]
         | .enable e => ["M sys=" ++ showSys (sysEnable s e)]
         | .disable e | .destroy e => ["M sys=" ++ showSys (sysDisable s e)]
-        | .raise g => ["M wr=" ++ showWr s g []]
-        | .raiseW g wf => ["M wr=" ++ showWr s g wf]
+        | .raise g => ["M wr=" ++ showWr s g [], "M env=" ++ showEnv s g]
+        | .raiseW g wf => ["M wr=" ++ showWr s g wf, "M env=" ++ showEnv s g]
         | .pass _ _ | .passC _ _ _ => ["M cs=ok"]
         | _ => []
       (s', b ++ ["P " ++ body ++ " " ++ showState s'] ++ m)
@@ -323,6 +362,7 @@ structure TAcc where
   err : Option String := none
   merr : Option String := none     -- first mismatch on an `M` line (model-internal observable): the run goes on
   nops : Nat := 0
+  lost : Bool := false             -- a loop was destroyed with subscribers: only deliveries are accepted from here on
 
 /-- the oracle of a pass: the `ord=` field of the implementation's next line -/
 def ordOfImplLine (l : String) : List Nat :=
@@ -334,7 +374,9 @@ def stepOp (a : TAcc) (line : String) : TAcc :=
   if a.err.isSome then a else
   let a := { a with nops := a.nops + 1 }
   let ord := match a.tl with | l :: _ => (ordOfImplLine l).eraseDups | [] => []
-  let (s', outs) := stepLine a.s line ord
+  let w0 := (words line).headD ""
+  let (s', outs) := if a.lost && !(w0 == "raise" || w0 == "raisew" || w0 == "burst") then (a.s, ["bad-op"]) else stepLine a.s line ord
+  let a := { a with lost := a.lost || (w0 == "lost" && outs != ["bad-op"]) }
   let tags := (outs.filter (·.startsWith "B ")).flatMap fun l => words (l.drop 2).toString
   let want := outs.filter (fun l => !l.startsWith "B ")
   let rec cmp (want tl : List String) (merr : Option String) : Option String × Option String × List String :=
